@@ -3,6 +3,9 @@
 import json
 SC="stateless model checking of the implementation under a controlled scheduler (iterative preemption/delay bounding)"
 CHECKS = {
+ "C12": dict(engine="vsched", technique=SC+" over real loopback sockets with scheduler-mediated readiness and virtual NAT timers",
+   text="idle eviction and restart, a packet racing with the NAT timeout, Stop with packets in flight, Stop during session initialisation, router rejection, failing sends (EPERM as an environment deviation) and two sessions are explored on the real relay services within a delay bound; oracles: no panic, no deadlock, table and sockets released after eviction, a new working session afterwards, and Stop returns with all NAT timers frozen, every relay goroutine ended and every relay socket closed",
+   note="timers fire at quiescence, in either order when due at the same instant; promptness = Stop completes with timers later than 1 s frozen"),
  "C11": dict(engine="vsched", technique=SC+" over real loopback sockets with scheduler-mediated readiness",
    text="the real UDP relay services (built from JSON through service.Config.Manager; NAT and session relays, generic and recvmmsg/sendmmsg paths) run on real loopback sockets under the controlled scheduler; every interleaving within a delay bound of the relay threads, 2-3 concurrent sessions to IP and domain targets (resolver lookups are scheduling points; shared packer objects get access points), a garbage datagram and a client address change is executed and checked for destination, payload, reply ownership and true source",
    note="loopback delivery synchronous with sendto; outgoing client = direct client; timers fire only at quiescence in this check (timeouts are C12)"),
